@@ -44,6 +44,16 @@ func NewMixture(weights Vector) (*Mixture, error) {
       return nil, fmt.Errorf("weights must be positive")
     }
   }
+  if weights.Dim() > 0 {
+    // the weights are normalized below, which needs some mass
+    sum := 0.0
+    for i := 0; i < weights.Dim(); i++ {
+      sum += weights.At(i).GetFloat64()
+    }
+    if sum == 0.0 {
+      return nil, fmt.Errorf("at least one weight must be positive")
+    }
+  }
   r := Mixture{}
   r.LogWeights = weights.CloneVector()
   r.LogWeights.Map(func(x Scalar) { x.Log(x) })
